@@ -321,11 +321,14 @@ SHAPES = {
 }
 
 
-def write_program(root: str, shape: str, variant: dict[int, int] | None = None, tick: int = 1000, ign: Any = ()) -> None:
+def write_program(root: str, shape: str, variant: dict[int, int] | None = None, tick: int = 1000, ign: Any = (), uw: bool = False) -> None:
     """Module m<k> per SCC k; each has an interface-phase and an implementation-phase error per dependency.
     variant[k] = 1 changes the return type of f<k> (its interface), so dependants see other errors."""
     deps = SHAPES[shape]
     variant = variant or {}
+    # uw: module-level variables whose inferred type comes from an indirect dependency. They pull the indirect dependency
+    # into the INTERFACE phase, which hides defects of the implementation-phase handling of indirect dependencies
+    # (seed C07-a) and exposes others (seed C07-d): programs come in both flavours.
     os.makedirs(root, exist_ok=True)
     for m, ds in deps.items():
         ret = "str" if variant.get(m) else "int"
@@ -347,9 +350,10 @@ def write_program(root: str, shape: str, variant: dict[int, int] | None = None, 
                 # through the name m<d> re-exports from m<dd>: an indirect dependency of m on m<dd>
                 lines.append("def h%d_%d_%d() -> str:\n    return m%d.f%d_from_%d()" % (m, d, dd, d, dd, d))
                 # ... and a module-level variable whose INFERRED type (part of m's interface) comes from that indirect dependency
-                lines.append("u%d_%d_%d = m%d.f%d_from_%d()" % (m, d, dd, d, dd, d))
-                for ddd in deps[dd]:
-                    lines.append("w%d_%d_%d_%d: str = m%d.u%d_%d_%d" % (m, d, dd, ddd, d, d, dd, ddd))
+                if uw:
+                    lines.append("u%d_%d_%d = m%d.f%d_from_%d()" % (m, d, dd, d, dd, d))
+                    for ddd in deps[dd]:
+                        lines.append("w%d_%d_%d_%d: str = m%d.u%d_%d_%d" % (m, d, dd, ddd, d, d, dd, ddd))
         if variant.get(m) == 2:
             lines.append("def broken( -> None: pass")
         if variant.get(m) == 3:
